@@ -38,7 +38,9 @@ structure Cfg where
   reraise : Bool
   level : Nat
   default : Val
-  onerror : Option (Exc → Option Exc)   -- `None`, or a callable that may itself raise
+  /-- `None`, or arbitrary user code: it receives the exception and the WORLD (it may call other
+      catch()-protected code, log, …) and may itself raise -/
+  onerror : Option (Exc → G → Option Exc × G)
 
 /-- a catch()-decorated plain function (e.g. a `__repr__`) that is called while a record is being
     formatted / emitted; `out` is what its undecorated body does -/
@@ -46,11 +48,13 @@ structure Probe where
   cfg : Cfg
   out : CallRes
 
-/-- the logger's environment: callables invoked during `_log`, and whether `_log` itself raises
-    (sink added with `catch=False`, failing patcher/filter …) -/
+/-- the logger's environment: callables invoked during `_log`, whether `_log` itself raises
+    (sink added with `catch=False`, failing patcher/filter …), and the least level any handler
+    accepts (`core.min_level`; no handler at all = above every level): below it `_log` returns at once -/
 structure Env where
   probes : List Probe
   logRaises : Exc → Option Exc
+  minLevel : Nat
 
 /-- what `__exit__` does: return a true value, return a false value / `None`, or raise -/
 inductive ExitRes where
@@ -114,6 +118,7 @@ def asyncWithBlock (exitF : ExitF) (cfg : Cfg) (body : G → CallRes × G) (g : 
     sink; while it is produced the environment's probes run through THEIR catch wrappers (`exitF`);
     finally `_log` may raise -/
 def logCall (exitF : ExitF) (env : Env) (level depth : Nat) (e : Exc) (g : G) : Option Exc × G :=
+  if level < env.minLevel then (none, g) else      -- `if not core.handlers: return` / `if level_no < core.min_level: return`
   let g1 := g.push (.log level e depth)
   let g2 := env.probes.foldl
     (fun g p => match callWrapped exitF p.cfg (fun g => (p.out, g)) g with
@@ -137,10 +142,10 @@ def exitCore (logF : Nat → Nat → Exc → G → Option Exc × G) (cfg : Cfg) 
         match cfg.onerror with
         | none => (if Gen.exitReturn cfg.reraise then .suppress else .propagate, g3)
         | some f =>
-          let g4 := g3.push (.onerror x)
-          match f x with
-          | some x' => (.raise x', g4)
-          | none => (if Gen.exitReturn cfg.reraise then .suppress else .propagate, g4)
+          let g4 := g3.push (.onerror x)              -- called with the guard flag already reset
+          match f x g4 with
+          | (some x', g5) => (.raise x', g5)
+          | (none, g5) => (if Gen.exitReturn cfg.reraise then .suppress else .propagate, g5)
 
 /-- `__exit__` with a budget for how deeply catch-wrapped callables invoked during `_log` may
     themselves reach `_log`; budget 0 treats them as always propagating.  `Props/C16` proves the
